@@ -357,6 +357,53 @@ def sc_threaddup(ident, offsets, delay=0.6):
                 meta=dict(family="threaddup", offsets=offsets, delay=delay))
 
 
+_REN_HEAD = ("from pathlib import Path\nfrom experimaestro import Task, Param, Meta, deprecate\n"
+             "from vpk_jobdir.tasks import _body\n\n\n")
+_REN_BODY = ("    tag: Param[int]\n    ctl: Meta[Path]\n    maxwait: Meta[float] = 60.0\n\n"
+             "    def execute(self):\n        _body(self.tag, self.ctl, self.maxwait)\n")
+REN_OLD = _REN_HEAD + "class Learn(Task):\n" + _REN_BODY
+REN_NEW = _REN_HEAD + "class Train(Task):\n" + _REN_BODY + "\n\n@deprecate\nclass Learn(Train):\n    pass\n"
+
+
+def sc_renamed(ident, running):
+    """C05 with a renamed task (generated module: Learn, later Train with Learn as deprecated alias) and
+    `deprecated list --fix` (tools.jobs.fix_deprecated) between the experiments.
+    running=False: the first --fix is run while the job has no result yet, the job then succeeds, --fix is run
+    again, a later experiment submits the task under its new name: the body must not run again.
+    running=True: --fix and the submission under the new name happen while the job is still running under its old
+    name: no second body."""
+    wl_old = dict(kind="renamed", module="vren_tasks", cls="Learn", tags=[1])
+    wl_new = dict(kind="renamed", module="vren_tasks", cls="Train", tags=[1])
+    runs = [dict(sid="S0", slot=0, run=0, xpname="old", workload=wl_old, trace=False),
+            dict(sid="S1", slot=1, run=0, xpname="new", workload=wl_new, trace=False)]
+    script = [dict(when={"t": 0}, do={"write_module": ["vren_tasks", REN_OLD]}),
+              dict(when={"after": [0, 0.0]}, do={"start": ["S0", 0]}),
+              dict(when={"log": r"^begin 1 "}, do={"write_module": ["vren_tasks", REN_NEW]}),
+              dict(when={"after": [2, 0.1]}, do={"fix_deprecated": True})]
+    if running:
+        script += [dict(when={"after": [3, 0.1]}, do={"start": ["S1", 0]}),
+                   dict(when={"phase": ["S1", 0, "submitted"]}, do={"write": ["noop", ""]}),
+                   dict(when={"after": [5, 2.5]}, do={"touch": "latch.all"})]
+    else:
+        script += [dict(when={"after": [3, 0.1]}, do={"touch": "latch.all"}),
+                   dict(when={"dead": ["S0", 0]}, do={"fix_deprecated": True}),
+                   dict(when={"after": [5, 0.1]}, do={"start": ["S1", 0]})]
+    return dict(id=ident, kind="one", tags=[1], timeout=50, files={}, runs=runs, script=script,
+                meta=dict(family="renamed", running=running))
+
+
+def sc_hashseed(ident, seeds, npre=3):
+    """C05: a job with `npre` pre-tasks is run by a first experiment process, then submitted again by later processes
+    with other hash seeds (PYTHONHASHSEED): same identifier, the body runs once"""
+    wl = dict(kind="pretasks", tags=[1], npre=npre)
+    runs, script = [], []
+    for k, sd in enumerate(seeds):
+        runs.append(dict(sid=f"S{k}", slot=k, run=0, xpname=f"x{k}", workload=wl, trace=False, hashseed=sd))
+        script.append(dict(when=({"t": 0} if k == 0 else {"dead": [f"S{k - 1}", 0]}), do={"start": [f"S{k}", 0]}))
+    return dict(id=ident, kind="one", tags=[1], timeout=50, files={"latch.all": ""}, runs=runs, script=script,
+                meta=dict(family="hashseed", seeds=seeds, npre=npre))
+
+
 def sc_history(ident, ops):
     """C05 (a): one experiment process executing a submission history"""
     return dict(id=ident, kind="one", tags=sorted({op[1] for op in ops if op[0] in ("submit", "finish")}), timeout=70,
